@@ -220,7 +220,14 @@ def run_unit(unit, repo, scratch, features=None, rlimit=30, multiple_errors=4, t
             return
         if fname is None:
             raise Undecided('spec-side obligation failed in unit %s (line %d: %s): %s' % (name, line, text, d.get('message')))
-        failures.append(dict(fn=fname, arm=arm, kind=kind, line=line, text=text, message=d.get('message'),
+        # the failed clause itself (primary span): a clause over the ghost step counter is the cost contract (C02), not a value contract
+        clause = ''
+        for sp in d.get('spans', []):
+            if sp.get('is_primary') and sp.get('text'):
+                clause = ' '.join(t['text'].strip() for t in sp['text'])
+        if kind in ('post', 'invariant') and re.search(r'\bsteps\b', clause):
+            kind = 'cost'
+        failures.append(dict(fn=fname, arm=arm, kind=kind, line=line, text=text, message=d.get('message'), clause=clause[:300],
                              rendered=d.get('rendered', '')[:1500]))
 
     # which T5 functions need arm splitting: any failure or resource limit inside them
